@@ -118,6 +118,24 @@ def rule(rid, props):
     return deco
 
 
+_SCOPE = {}
+
+
+def prop_scope(pid):
+    """Files the property is anchored in (properties.jsonl) plus the shared helpers."""
+    if not _SCOPE:
+        try:
+            with open(os.path.join(VERIF, "properties.jsonl")) as fh:
+                for line in fh:
+                    p = json.loads(line)
+                    _SCOPE[p["id"]] = set(p["anchors"]["files"]) | {
+                        "trie/validation.py", "trie/constants.py", "trie/exceptions.py", "trie/typing.py",
+                        "trie/utils/nibbles.py", "trie/utils/nodes.py", "trie/utils/binaries.py", "trie/utils/db.py"}
+        except OSError:
+            return None
+    return _SCOPE.get(pid)
+
+
 def load_known():
     if not os.path.exists(KNOWN):
         return []
@@ -154,8 +172,13 @@ def run_property(pid, tier="quick", sources=None, rules_only=None, write=True, q
     except AnalysisError as e:
         probs = [str(e)]
     ctx.cur_rule = "RESOLVE"
+    scope = prop_scope(pid)
     for p in probs:
-        ctx.ob("call-resolution", p.split(":", 2)[0] if ":" in p else "-", ERROR, p)
+        pf = p.split(":", 1)[0]
+        if scope is None or pf in scope:
+            ctx.ob("call-resolution", pf, ERROR, p)
+        else:
+            ctx.ob("call-resolution", pf, INFO, "outside this property's files: " + p)
     for rid, kw in todo:
         if rules_only and rid not in rules_only:
             continue
